@@ -28,7 +28,7 @@ func init() {
 				"copy QueryLogEnabled and IPLogEnabled from the fields of the same name, and newRequestInfo re-initialises every " +
 				"field of the pooled request information on every path, so a request never inherits the previous request's profile.",
 			NotCovered: "JSON well-formedness of arbitrary field contents (encoding/json trusted); atomicity of O_APPEND writes in the kernel.",
-			Rules: map[string]string{"C15-R15": "newDeviceFinder: the real finder exactly when the server group has profiles enabled", "C15-RC": "class rules (error chains, shadowed results, character classes, crossed arguments, pool constructors, array pools, loop completeness, loop-carried buffers, replacing setters, complete clones, Grow arithmetic, pooled-buffer escape, sorted searches, fresh decode targets, per-iteration objects, whole-message copies, codec guards) over the packages this property rests on", "C15-R14": "profile lookups by linked / dedicated IP re-check the device's current address; isBlockedByAccess returns the profile's verdict (shared with C14-R4, C10-R1)", "C15-R13": "no named (non-error) result is hidden by a same-typed short variable declaration and then returned by name outside that scope (typed-AST rule over the whole repository)", "C15-R12": "no whole-struct copy of a dns.Msg (the copy shares Question and the RR slices with the logged request); pool constructors build fresh buffers", "C15-R11": "clone methods of filtering results copy every field (list and rule IDs are what gets logged)", "C15-R1": "recordQueryInfo gates and entry provenance", "C15-R2": "sole callers of log/billing sinks; record only after the write",
+			Rules: map[string]string{"C15-R16": "setFilteredResponse answers by the request verdict whenever there is one, which is also the verdict the log entry names (shared with C02-R6)", "C15-R17": "responseData reports the response's own response code (all bits, extended codes included) and AD flag", "C15-R15": "newDeviceFinder: the real finder exactly when the server group has profiles enabled", "C15-RC": "class rules (error chains, shadowed results, character classes, crossed arguments, pool constructors, array pools, loop completeness, loop-carried buffers, replacing setters, complete clones, Grow arithmetic, pooled-buffer escape, sorted searches, fresh decode targets, per-iteration objects, whole-message copies, codec guards) over the packages this property rests on", "C15-R14": "profile lookups by linked / dedicated IP re-check the device's current address; isBlockedByAccess returns the profile's verdict (shared with C14-R4, C10-R1)", "C15-R13": "no named (non-error) result is hidden by a same-typed short variable declaration and then returned by name outside that scope (typed-AST rule over the whole repository)", "C15-R12": "no whole-struct copy of a dns.Msg (the copy shares Question and the RR slices with the logged request); pool constructors build fresh buffers", "C15-R11": "clone methods of filtering results copy every field (list and rule IDs are what gets logged)", "C15-R1": "recordQueryInfo gates and entry provenance", "C15-R2": "sole callers of log/billing sinks; record only after the write",
 				"C15-R3": "single append write from the pooled buffer", "C15-R4": "result switches exhaustive", "C15-R5": "every field of the entry is written",
 				"C15-R6": "the logging opt-in flags are copied name-to-name by the backend and file-cache conversions; the recycled request-information object (which carries the profile attribution) is fully re-initialised"},
 		}})
@@ -36,6 +36,43 @@ func init() {
 
 func runC15(c *an.Ctx) {
 	classSweep(c, "C15")
+	// ---- R16: the verdict that is logged is the verdict that shaped the answer (request verdict first; shared with C02-R6);
+	// R17: the response code and the AD flag in the entry are the response's own, unmasked
+	c.Floor("C15-R16", 1)
+	c.Borrow("C15-R16", runC02, func(o an.Obligation) bool { return o.Rule == "C02-R6" && strings.Contains(o.Key, "setFilteredResponse") })
+	c.Floor("C15-R17", 1)
+	decide(c, "C15-R17", "dnssvc/internal/mainmw.(*Middleware).responseData", an.DecideCfg{
+		Dom: an.Domain{"p2": an.NilOrNot, "iperr": an.Bools},
+		OnCall: func(it *an.Interp, name string, args []an.AV) (an.AV, bool) {
+			switch {
+			case strings.HasSuffix(name, "mainmw.ipFromAnswer"):
+				e := an.Nil()
+				if it.Feature("iperr").IsTrue() {
+					e = an.NonNil("ipErr")
+				}
+				return an.AV{Kind: an.KTuple, Tup: []an.AV{an.Sym("ip"), e}}, true
+			case strings.HasSuffix(name, "errcoll.Collect"):
+				return an.Nil(), true
+			}
+			return an.AV{}, false
+		},
+		Expect: func(f an.Features, o an.AOutcome) string {
+			if len(o.Ret) != 3 {
+				return "three results"
+			}
+			if f.IsNil("p2") {
+				if o.Ret[0].String() != "255" {
+					return "the unassigned code 0xff without a response; got " + o.RetString()
+				}
+				return ""
+			}
+			rc := o.Ret[0].String()
+			if !strings.Contains(rc, "p2.MsgHdr.Rcode") || strings.ContainsAny(rc, "&|%") || !strings.Contains(o.Ret[2].String(), "p2.MsgHdr.AuthenticatedData") {
+				return "the response's own Rcode (converted, not masked) and AD flag; got " + o.RetString()
+			}
+			return ""
+		},
+	})
 	dnssvcWiring(c, "C15-R10", func(dst, src string) bool {
 		n := normName(dst) + " " + normName(src)
 		return strings.Contains(n, "querylog") || strings.Contains(n, "billstat")
